@@ -37,13 +37,22 @@ type c18Tree2 struct {
 	nbPrims int
 }
 
-func c18BookPath(book string) string { return book + "#*.csv" }
+// c18Dir: every fourth tree lives in a sub-directory whose name contains '#' (the character that separates book and
+// sheet in CSV file names)
+var c18Dir string
+
+func c18BookPath(book string) string { return c18Dir + book + "#*.csv" }
 
 func genC18Related(seed int64) c18Tree2 {
 	r := rand.New(rand.NewSource(seed))
 	nsrc := 1 + r.Intn(3)
 	nprim := 2 + r.Intn(3)
 	t := c18Tree2{nbSrc: nsrc, nbPrims: nprim}
+	c18Dir = ""
+	if seed%4 == 0 {
+		c18Dir = "set#2/"
+	}
+	dir := strings.TrimSuffix(c18Dir, "/")
 	type prim struct {
 		book, sheet string
 		specs       []string
@@ -96,11 +105,11 @@ func genC18Related(seed int64) c18Tree2 {
 			if len(p.specs) > 0 {
 				meta["Merger"] = strings.Join(p.specs, ",")
 			}
-			w.writeCSVBook("", bookSpec{Name: p.book, Sheets: []sheetSpec{{Name: p.sheet, Rows: rows, Meta: meta}}})
+			w.writeCSVBook(dir, bookSpec{Name: p.book, Sheets: []sheetSpec{{Name: p.sheet, Rows: rows, Meta: meta}}})
 		}
 		for j := 1; j <= nsrc; j++ {
 			rows := [][]string{{"ID", "Name"}, {"t", "t"}, {"n", "n"}, row(100*j + 1), row(100*j + 2)}
-			w.writeCSVBook("", bookSpec{Name: "Src" + strconv.Itoa(j), Sheets: []sheetSpec{{Name: "Zone", Rows: rows}}, NoMeta: true})
+			w.writeCSVBook(dir, bookSpec{Name: "Src" + strconv.Itoa(j), Sheets: []sheetSpec{{Name: "Zone", Rows: rows}}, NoMeta: true})
 		}
 	}
 	return t
